@@ -212,9 +212,8 @@ impl<'a> Runner<'a> {
                 if let AnyParser::C(p) = &mut self.parser {
                     {
                         let mut t = lock(&self.tap);
-                        if !t.quiet {
-                            t.out.push(format!("F {}", nums(s)));
-                        }
+                        let q = if t.quiet { "FQ" } else { "F" };
+                        t.out.push(format!("{} {}", q, nums(s)));
                     }
                     let r = catch_unwind(AssertUnwindSafe(|| p.feed(s.clone())));
                     let mut t = lock(&self.tap);
@@ -235,14 +234,12 @@ impl<'a> Runner<'a> {
                 if let AnyParser::B(p) = &mut self.parser {
                     {
                         let mut t = lock(&self.tap);
-                        if !t.quiet {
-                            let mut l = format!("FB {}", b.len());
-                            for x in b {
-                                l.push(' ');
-                                l.push_str(&x.to_string());
-                            }
-                            t.out.push(l);
+                        let mut l = format!("{} {}", if t.quiet { "FBQ" } else { "FB" }, b.len());
+                        for x in b {
+                            l.push(' ');
+                            l.push_str(&x.to_string());
                         }
+                        t.out.push(l);
                     }
                     let r = catch_unwind(AssertUnwindSafe(|| p.feed(b)));
                     let mut t = lock(&self.tap);
@@ -261,20 +258,27 @@ impl<'a> Runner<'a> {
             }
             Op::Charset(c) => {
                 if let AnyParser::B(p) = &mut self.parser {
+                    let before = lock(&self.tap).ncalls;
                     p.select_other_charset(c);
                     let mut t = lock(&self.tap);
-                    if !t.quiet {
-                        t.out.push(format!("U {}", nums(c)));
+                    if t.ncalls != before {
+                        // a mode switch is not input: it must not reach the listener
+                        let n = t.ncalls - before;
+                        t.out.push(format!("XM {} select_other_charset", n));
                     }
+                    t.out.push(format!("U {}", nums(c)));
                 }
             }
             Op::Utf8(b) => {
                 if let AnyParser::C(p) = &mut self.parser {
+                    let before = lock(&self.tap).ncalls;
                     p.set_use_utf8(*b);
                     let mut t = lock(&self.tap);
-                    if !t.quiet {
-                        t.out.push(format!("U8 {}", *b as u32));
+                    if t.ncalls != before {
+                        let n = t.ncalls - before;
+                        t.out.push(format!("XM {} set_use_utf8", n));
                     }
+                    t.out.push(format!("U8 {}", *b as u32));
                 }
             }
             Op::Quiet(q) => lock(&self.tap).quiet = *q,
